@@ -160,7 +160,8 @@ class MethodWalk:
             if c in closure_takers:
                 self._inline_closures(bi, t)
                 continue
-            if not (helpers and c in helpers) and (c.startswith("veryl_") or c.startswith("<veryl_")) and not re.search(r"::(clone|as_ref|deref|borrow|into|from|first|last|text|is_\w+|len|iter)$", c):
+            if not (helpers and c in helpers) and (c.startswith("veryl_") or c.startswith("<veryl_")) and \
+                    not re.search(r"::VerylGrammarTrait::|::Handler::", c) and not re.search(r"::(clone|as_ref|deref|borrow|into|from|first|last|text|is_\w+|len|iter)$", c):
                 # a workspace function the engine knows nothing about receives part of the node: what it does with it is unknown
                 for a in t["args"]:
                     ch = self.chain_of(a)
